@@ -361,6 +361,10 @@ func GenSProgram(t *rapid.T, cfg SGenCfg) SProgram {
 			off := rapid.Int64Range(0, total-1).Draw(t, "off")
 			p.Ops = append(p.Ops, SOp{K: "snaprace", Node: rapid.IntRange(0, nodes-1).Draw(t, "node"), Off: off,
 				Len: rapid.Int64Range(1, min64(total-off, 16)).Draw(t, "len"), Seed: rapid.IntRange(1, 250).Draw(t, "seed")})
+			if cfg.W["race"] > 0 {
+				// every block carries a racing writer's stamp: the stalled write puts back what is there
+				p.Ops[len(p.Ops)-1].Seed = -1
+			}
 		case "promotecp":
 			nf := rapid.IntRange(1, nodes).Draw(t, "ncpfail")
 			p.Ops = append(p.Ops, SOp{K: "promote", Node: rapid.IntRange(0, nodes-1).Draw(t, "node"), Fail: rapid.Permutation(seqInts(nodes)).Draw(t, "cpfailperm")[:nf]})
